@@ -13,7 +13,7 @@ PID = "C07"
 LEVEL = "other"
 N = 2
 ALPHA = ("sel a>k", "proj -b", "dedup", "to it1", "to it2", "to sq", "mat", "sort a")
-LEAFCOLS = {**meprogs.LEAFCOLS, "0i": ("a", "b", "c"), "0s": ("a", "b", "c")}
+LEAFCOLS = {**meprogs.LEAFCOLS, "0i": ("a", "b", "c"), "0s": ("a", "b", "c"), "Ii": (), "Is": ()}
 
 
 def programs(tier):
@@ -40,6 +40,14 @@ def programs(tier):
             ("dedup", ("chain", ("xfer", S, "it1"), ("leaf", "0i"))), ("mat", ("chain", ("xfer", X, "sq"), ("leaf", "0s"))),
             ("chain", ("xfer", X, "sq"), S), ("chain", ("xfer", S, "it1"), X),
             ("xfer", ("sel", S, ("plit", False)), "it1"), ("xfer", ("leaf", "0s"), "it1"), ("mat", ("xfer", ("leaf", "0i"), "sq"))]
+    out += [("xfer", ("leaf", "Is"), "it1"), ("xfer", ("leaf", "Ii"), "sq"), ("mat", ("xfer", ("leaf", "Ii"), "sq"), "mi"),
+            ("xfer", ("dedup", ("proj", ("leaf", "Ii"), ())), "it2"), ("xfer", ("mat", ("xfer", ("leaf", "Is"), "it1"), "mi"), "it2")]
+    selS = ("sel", S, ("gt", meprogs.A, ("lit", "$k1")))
+    selX = ("sel", X, ("gt", meprogs.A, ("lit", "$k1")))
+    for empty, live, other in ((("leaf", "0s"), selS, "it1"), (("leaf", "0i"), selX, "sq"), (("leaf", "0i"), selX, "it2")):
+        for ch in (("chain", empty, live), ("chain", live, empty)):
+            out += [("xfer", ("mat", ch, "mc"), other), ("mat", ch, "mc"), ("xfer", ("dedup", ("mat", ch, "mc")), other),
+                    ("mat", ("mat", ch, "mc"), "mc2"), ("xfer", ("mat", ("proj", ch, ("a", "b")), "mc"), other)]
     return out
 
 
@@ -71,6 +79,10 @@ def make_env(ctx, prog, valfn=None):
         env.add_special_leaf("0i", "doomed", "it1", ("a", "b", "c"))
     if "'0s'" in names:
         env.add_special_leaf("0s", "doomed", "sq", ("a", "b", "c"))
+    if "'Ii'" in names:
+        env.add_special_leaf("Ii", "identity", "it1")
+    if "'Is'" in names:
+        env.add_special_leaf("Is", "identity", "sq")
     return env
 
 
@@ -262,7 +274,8 @@ def concrete_check(prog, model, bind):
         return True, f"process-raises:{type(e).__name__}", str(e)[:140]
     if problems:
         return True, problems[0][0], problems[0][1]
-    leafrows = {"X": [{c: int(model.get(f"X.{c}{i}", 0)) for c in "abc"} for i in range(N)], "S": srows, "0i": [], "0s": []}
+    leafrows = {"X": [{c: int(model.get(f"X.{c}{i}", 0)) for c in "abc"} for i in range(N)], "S": srows, "0i": [], "0s": [],
+                "Ii": [{}], "Is": [{}]}
     exp = pyeval(prog, leafrows, bind, env.tags)
     ordered = "S" not in repr(prog) and "sq" not in repr(prog)
     for i, got in enumerate(results):
